@@ -18,7 +18,8 @@ tvars == <<script, makeFault, intrAt, mpc, cause, propagated, wpc, wi, wk, sem, 
 
 Traces == JsonDeserialize(IOEnv.TRACE_FILE)
 SetOf(s) == {s[i] : i \in DOMAIN s}
-ScriptOf(tr) == [w \in DOMAIN tr.script |-> [tests |-> tr.script[w].tests, raises |-> tr.script[w].raises]]
+ScriptOf(tr) == [w \in DOMAIN tr.script |-> [tests |-> tr.script[w].tests, raises |-> tr.script[w].raises,
+                                              tfault |-> tr.script[w].tfault]]
 
 TraceInit ==
     \E n \in DOMAIN Traces :
@@ -42,6 +43,7 @@ StrictStep ==
               [] OTHER -> FALSE
        ELSE /\ e.thr \in Workers
             /\ CASE e.act = "begin"   -> WStart(e.thr)
+                 [] e.act = "local"   -> WLocal(e.thr)
                  [] e.act = "acquire" -> WAcquire(e.thr)
                  [] e.act = "call"    -> WCall(e.thr) /\ clog'[Len(clog')] = EntryOf(e.e)
                  [] e.act = "release" -> WRelease(e.thr)
